@@ -15,15 +15,15 @@ def battery (names : List String) (clss : List String) (h : List (List Sym)) : L
     let hi := h.drop i
     let ci := (clss.zip h).drop i
     (names.flatMap fun nm =>
-      let k := asciiUpper nm
-      [ s!"g{i}:{nm}={optStr symStr (Spec.lookup asciiUpper hi k)}",
-        s!"w{i}:{nm}={optStr hitStr ((Spec.allHits asciiUpper ci k).head?)}",
+      let k := latinUpper nm
+      [ s!"g{i}:{nm}={optStr symStr (Spec.lookup latinUpper hi k)}",
+        s!"w{i}:{nm}={optStr hitStr ((Spec.allHits latinUpper ci k).head?)}",
         s!"s{i}:{nm}={optStr hitStr (match ci with
             | [] => none
-            | p :: _ => (Spec.last asciiUpper p.2 k).map (fun x => (p.1, x)))}",
-        s!"a{i}:{nm}={listStr hitStr (Spec.allHits asciiUpper ci k)}" ]) ++
+            | p :: _ => (Spec.last latinUpper p.2 k).map (fun x => (p.1, x)))}",
+        s!"a{i}:{nm}={listStr hitStr (Spec.allHits latinUpper ci k)}" ]) ++
     [ s!"t{i}={listStr symStr (hi.headD [])}",
-      s!"c{i}={listStr symStr (Spec.merged asciiUpper hi)}" ]
+      s!"c{i}={listStr symStr (Spec.merged latinUpper hi)}" ]
 
 def run (args : List String) : String :=
   match args with
